@@ -84,6 +84,79 @@ assert np.allclose(np.linalg.eigvalsh((X + X.T) / 2), w0, atol=1e-9 * max(1, abs
 """ % case
 
 
+def repro_fewterm(case, plan, group):
+    imp = os.path.join(common.VERIF, "harness", "impl")
+    ft = open(os.path.join(imp, "c17_fewterm.py")).read()
+    lib = open(os.path.join(imp, "c17_lib.py")).read()
+    body = ft[ft.index("SX = "):ft.index("def one(")].replace("def L_emit", "def _unused_emit")
+    sw = lib[lib.index("def swap_mats"):lib.index("RENAME = ")]
+    return ("import functools, json, os, tempfile\nimport numpy as np\nfrom renormalizer.model import Model, Op, h_qc\n"
+            "from renormalizer.model.basis import BasisHalfSpin, BasisSHO\nfrom renormalizer.mps import Mpo\n" + sw + body +
+            "case = json.loads(%r)\nplan = %r\n" % (json.dumps(case), plan) + """
+basis, ops, dims = build(case)
+terms, local = ops[%d]
+order = [b.dof for b in basis]; n = len(order)
+mpo = Mpo(Model(basis, terms)); ref0 = reference(local, order, dims); G = np.eye(ref0.shape[0])
+assert np.allclose(mpo.todense(), ref0)
+for i in plan:
+    basis = basis.copy(); basis[i], basis[i + 1] = basis[i + 1], basis[i]; order[i], order[i + 1] = order[i + 1], order[i]
+    mpo.try_swap_site(Model(basis, terms), case["swap_jw"])
+    if case["swap_jw"]:
+        G = swap_mats(n, i)[1] @ G; ref = G @ ref0 @ G.T
+    else:
+        ref = reference(local, order, dims)
+    X = mpo.todense()
+    print("exchange", i, "order", order, "deviation", abs(X - ref).max(), "norm", np.linalg.norm(X), "reference norm", np.linalg.norm(ref))
+    assert abs(X - ref).max() < 1e-9 * max(1.0, abs(ref).max()), "operator changed by the exchange of neighbouring sites"
+""" % group)
+
+
+def fewterm_cases(rng, thorough):
+    coeffs = [k / 8.0 for k in list(range(-24, 0)) + list(range(1, 25)) if k != 8]
+    cases = []
+
+    def plans(n):
+        walk = [rng.randrange(n - 1) for _ in range(rng.choice([6, 8]))]
+        return [[i] for i in range(n - 1)] + [list(range(n - 1)), list(range(n - 2, -1, -1)), walk]
+
+    def spin_term(n, jw, full):
+        sites = list(range(n)) if full else sorted(rng.sample(range(n), rng.randrange(1, n + 1)))
+        long_ = rng.random() < 0.6
+        zs, ps, ms = ("sigma_z", "sigma_+", "sigma_-") if long_ else ("Z", "+", "-")
+        alphabet = [[zs], [ps], [ms], [ps, ms], [zs, ps], [ms, zs]] + ([] if jw else [["sigma_x"], ["sigma_x", zs]])
+        syms, dofs = [], []
+        for d in sites:
+            w = rng.choice(alphabet)
+            syms += w
+            dofs += [d] * len(w)
+        return [syms, dofs, rng.choice(coeffs)]
+
+    nsp = 10 if thorough else 4
+    for k in range(nsp):
+        for jw in (False, True):
+            n = rng.choice([3, 4])
+            nt = [1, 1, 2, 3][k % 4]
+            terms = [spin_term(n, jw, full=(t == 0 and k % 2 == 0)) for t in range(nt)]
+            cases.append({"family": "spin", "sites": [["spin", d] for d in range(n)], "terms": terms, "plans": plans(n), "swap_jw": jw})
+    # the operator of the seeded demo: one term on all four sites, prefactor 0.7-like
+    cases.append({"family": "spin", "sites": [["spin", d] for d in range(4)],
+                  "terms": [[["sigma_z", "sigma_+", "sigma_-", "sigma_x"], [0, 1, 2, 3], rng.choice(coeffs)]], "plans": plans(4), "swap_jw": False})
+    for k in range(6 if thorough else 3):
+        om = [rng.choice([0.5, 1.0, 2.0]), rng.choice([0.5, 1.25, 2.0])]
+        nb = rng.choice([3, 4])
+        sites = [["spin", "s"], ["sho", "v0", om[0], nb], ["sho", "v1", om[1], nb]]
+        rng.shuffle(sites)
+        terms = [[["sigma_z", "x"], ["s", rng.choice(["v0", "v1"])], rng.choice(coeffs)]]
+        if k % 3 == 1:
+            terms.append([["b^\\dagger", "b"], ["v0", "v0"], rng.choice(coeffs)])
+        if k % 3 == 2:
+            terms = [[["sigma_x", "x", "b^\\dagger", "b"], ["s", "v0", "v1", "v1"], rng.choice(coeffs)]]
+        cases.append({"family": "vib", "sites": sites, "terms": terms, "plans": plans(3), "swap_jw": False})
+    for jw in (False, True):
+        cases.append({"family": "qcstack", "eps": [rng.choice(coeffs), rng.choice(coeffs)], "plans": plans(4), "swap_jw": jw})
+    return cases
+
+
 # the two minimal cases found while building the check; always run first
 CORPUS_TDVP = {"mode": "tdvp", "nsp": 2, "seed": 0, "kind": "dense", "spelled": "qc", "swap_jw": True, "ofs": "OFS-S", "M": 4,
                "nelec": [1, 1], "steps": 6, "dt": 0.05, "rseed": 3}
@@ -449,6 +522,51 @@ def run(ctx):
                 else:
                     swap_bad.append({"what": "try_swap_site raised", "case": case, "raised": c["raised"]})
 
+    # ------------------------------------------------------------------ 4b. one-term / few-term operators with prefactors: every pair, sweeps, walks
+    ft_cases = fewterm_cases(rng, thorough)
+    ft_payloads = [{"cases": ch} for ch in chunks(ft_cases, 4)]
+    ft_res = ctx.impl_par("c17_fewterm.py", ft_payloads, timeout=1500)
+    ft_bad = []
+    ft_assert = []
+    n_ft_steps = 0
+    for (rc, r, raw), pl in zip(ft_res, ft_payloads):
+        r = unfile(r)
+        if r is None:
+            ft_bad.append({"what": "c17_fewterm.py failed", "out": raw[-800:]})
+            continue
+        for c in r["cases"]:
+            case = c["case"]
+            key = "fewterm/%s/jw=%s" % (case["family"], case["swap_jw"])
+            dist[key] = dist.get(key, 0) + 1
+            if "error" in c:
+                ft_bad.append({"what": "exception", "case": case, "error": c["error"]})
+                continue
+            for pr in c["plans"]:
+                ev += 1
+                if pr["initial"] > TOL:
+                    ft_bad.append({"what": "Mpo differs from coeff * kron(local matrices) before any exchange", "case": case, "plan": pr})
+                    continue
+                hit = None
+                for k, st in enumerate(pr["steps"]):
+                    ev += 1
+                    n_ft_steps += 1
+                    if st["dev"] > TOL:
+                        hit = {"what": "operator after the exchange is not the same operator in the new site order", "case": case,
+                               "group": pr["group"], "plan": pr["plan"][:k + 1], "nterms": pr["nterms"], "observed": st}
+                        break
+                if hit:
+                    ft_bad.append(hit)
+                elif "raised" in pr:
+                    if "auxiliary_dummy_primary_ops" in pr["raised"]["where"]:
+                        ft_assert.append({"case": case, "plan": pr["plan"], "raised": pr["raised"]})
+                    else:
+                        ft_bad.append({"what": "try_swap_site raised", "case": case, "group": pr["group"], "plan": pr["plan"][:pr["raised"]["step"] + 1],
+                                       "nterms": pr["nterms"], "raised": pr["raised"]})
+                elif pr["steps"]:
+                    nontriv += 1
+    if ft_cases:
+        samples.append({"fewterm_case": {k: v for k, v in ft_cases[0].items() if k != "plans"}, "plans": len(ft_cases[0]["plans"])})
+
     # ------------------------------------------------------------------ 5. on-the-fly swapping through evolve / optimize_mps
     ofs_cases = [dict(CORPUS_TDVP)]
     for seed in range(3 if thorough else 1):
@@ -549,6 +667,13 @@ assert all(not np.any(np.asarray(t.qn) != 0) for t in L.flat_terms(terms)), "a g
         ctx.violation("swap-site-operator", "dense oracle: try_swap_site changes the operator beyond the site permutation / F conjugation",
                       {"failures": swap_bad[:6]}, found="case" in first and "error" not in first,
                       repro=repro_swapseq(first["case"], None) if "case" in first and "error" not in first else None)
+    if ft_bad:
+        first = min((x for x in ft_bad if "plan" in x and "group" in x), key=lambda x: (x.get("nterms", 9), len(x["plan"])), default=None)
+        ctx.violation("swap-site-few-term-operator",
+                      "dense oracle (one-term / few-term operators with prefactors, every adjacent pair incl. the last one, sweeps, walks): "
+                      "the operator after Mpo.try_swap_site is not the same operator in the new site order (independent kron reference)",
+                      {"failures": ft_bad[:6], "n_failures": len(ft_bad)}, found=first is not None,
+                      repro=repro_fewterm(first["case"], first["plan"], first["group"]) if first is not None else None)
     if swap_single:
         first = swap_single[0]
         ctx.violation("swap-site-single-term",
@@ -556,13 +681,13 @@ assert all(not np.any(np.asarray(t.qn) != 0) for t in L.flat_terms(terms)), "a g
                       "construct_symbolic_mpo returns symbolic_out_ops_list nested one level less than swap_site expects); reached by qc_model "
                       "when only one integral class survives (vanishing blocks)",
                       {"cases": swap_single[:4]}, found=True, repro=repro_swapseq(first["case"], first["raised"]))
-    if swap_assert or ofs_assert:
+    if swap_assert or ofs_assert or ft_assert:
         first = swap_assert[0] if swap_assert else None
         ctx.violation("swap-site-assert-after-swaps",
                       "dense oracle (swap sequences / OFS paths): Mpo.try_swap_site raises AssertionError in swap_site after earlier exchanges "
                       "(a bond operator that is zero up to rounding disappears from the table, `len(new_out_ops3) == ... == len(auxiliary_dummy_primary_ops)` fails); "
                       "C17 'all sequences of adjacent swaps' (raising counts)",
-                      {"sequences": swap_assert[:5], "ofs_paths": ofs_assert[:5], "failing_sequences": len(swap_assert), "of_sequences": len(swap_cases)},
+                      {"sequences": swap_assert[:5], "ofs_paths": ofs_assert[:5], "few_term_operators": ft_assert[:3], "failing_sequences": len(swap_assert), "of_sequences": len(swap_cases)},
                       found=first is not None, repro=repro_swapseq(first["case"], first["raised"]) if first else None)
     if (covered is False) or names_bad:
         first = names_bad[0] if names_bad else None
@@ -585,15 +710,15 @@ assert all(not np.any(np.asarray(t.qn) != 0) for t in L.flat_terms(terms)), "a g
                       {"failures": ofs_bad[:6]}, found=is_t, repro=repro_tdvp(first["case"]) if is_t else None)
 
     ctx.notes.append("term classes matched: %d of %d model classes (n=%s); rule pairs compared: %d; swap sequences: %d (%d hit the swap_site assertion); "
-                     "OFS runs: %d (%d ended in a permuted order); qc symbols + swap_jw=True operator steps: %d plain / %d fermionic"
-                     % (len(seen_classes), total_classes, sorted(model_terms), n_rule_pairs, len(swap_cases), len(swap_assert), len(ofs_cases),
+                     "few-term operator cases: %d (%d exchange steps compared with the kron reference); OFS runs: %d (%d ended in a permuted order); qc symbols + swap_jw=True operator steps: %d plain / %d fermionic"
+                     % (len(seen_classes), total_classes, sorted(model_terms), n_rule_pairs, len(swap_cases), len(swap_assert), len(ft_cases), n_ft_steps, len(ofs_cases),
                         n_swapped_runs, qc_true_plain, qc_true_fermi))
     return {"evaluations": ev, "distinct_nontrivial": nontriv,
             "rule": "distinct (n, index tuple) term classes on which qc_model's term (per-site words, sign, quantum numbers) equals the Coq model's "
-                    "+ word pairs on which the swap rule changes an operator and agrees with the model + swap sequences with >= 1 executed step "
+                    "+ word pairs on which the swap rule changes an operator and agrees with the model + swap sequences with >= 1 executed step + few-term operator plans whose every step matched the kron reference "
                     "+ OFS runs that ended in a permuted site order",
             "samples": samples[:4], "exhaustive": False,
             "input_distribution": dist,
             "term_classes_total": total_classes, "term_classes_matched": len(seen_classes),
-            "rule_pairs": n_rule_pairs, "swap_sequences": len(swap_cases), "swap_assertions": len(swap_assert),
+            "rule_pairs": n_rule_pairs, "fewterm_cases": len(ft_cases), "fewterm_steps": n_ft_steps, "swap_sequences": len(swap_cases), "swap_assertions": len(swap_assert),
             "ofs_runs": len(ofs_cases), "qc_covered_by_rule": covered, "qc_counterexample": witness}
